@@ -182,5 +182,8 @@ func init() {
 	for _, id := range []string{"C06", "C03"} {
 		extendProp(id, po, poF, func(c *Ctx) { defer c.cleanup(); c.presenceOracle() })
 	}
+	extendProp("C07", "stack-live: outside the generated Lex, every read of the scanner's call stack reads a slot below the top of the stack as it was when the function was entered, i.e. a state that a pending call() pushed (linear prover with a ghost term for the entry value of top; the writes of top/stack keep 0 <= top <= len(stack)). A return that finds nothing to return to (an unmatched closing brace, the typical syntax error inside a statement list) must not restore a stale slot left by an earlier interpolated string: the rest of the file would be scanned as string content and every later statement lost (seeds C07-4, C07-8).",
+		[]report.Floor{{Rule: "stack-live", What: "obligations", Min: 2}},
+		func(c *Ctx) { defer c.cleanup(); c.scanRun("stack-live") })
 	properties["PO"] = &Property{Level: "other", Run: func(c *Ctx) { defer c.cleanup(); c.presenceOracle() }}
 }
